@@ -13,6 +13,7 @@ import datetime
 import inspect
 import json
 
+import numpy
 import z3
 
 from gsv import common, gt, rulebank, symdag, validity
@@ -121,7 +122,7 @@ def check_date(ck, date, memo, seen):
             if cone is None:
                 cone = rulebank.SingleCone(dag)
             v, ctxn = cone.value(t)
-            term = R.term_of(v.e[0], float)
+            term = R.term_of(v.e[0] if hasattr(v, "e") else gt.py(numpy.asarray(v).reshape(-1)[0]), float)   # (a column that is constant for one person comes back concrete)
         except R.Unsupported as e:
             ck.inconclusive.append(f"{t}@{date}: not inductive and cone not encodable ({e})")
             continue
@@ -136,7 +137,12 @@ def check_date(ck, date, memo, seen):
                 continue
             # proved for the single-person household; the household templates are an additional search
             # with a time budget -- templates that stayed undecided are listed, not claimed
-            ck.discharged += 1
+            n_templates = len(TEMPLATES_QUICK if ck.tier == "quick" else TEMPLATES)
+            if undecided and len(undecided) == n_templates:
+                # nothing beyond the single person was decided for a target that is not inductively non-negative
+                ck.inconclusive.append(f"{t}@{date}: non-negative for a single person; no multi-person household template could be decided ({undecided})")
+            else:
+                ck.discharged += 1
             if undecided:
                 ck.extra.setdefault("template_cones_undecided", []).append(f"{t}@{date}: {undecided}")
         elif r == "sat":
